@@ -98,7 +98,7 @@ def writable_globals(lib):
 def extra(ctx, rng):
     full = ctx.tier != "quick"
     work = _sample_lines(ctx, rng, 40 if full else 14)
-    thr = ["thr.keygen"] + ["thr.rand %d" % n for n in (0, 1, 16, 32, 255, 256, 257, 4096)] + \
+    thr = ["thr.keygen"] + ["thr.closebuf %d" % n for n in (0, 16, 32, 64, 300)] * 3 + ["thr.rand %d" % n for n in (0, 1, 16, 32, 255, 256, 257, 4096)] + \
           ["thr.uniform %d %d" % (ub, 40) for ub in (0, 1, 2, 3, 255, 256, 1000003, 0x80000000, 0xffffffff)] + \
           ["thr.alloc %d %d" % (n, n % 251) for n in (0, 1, 15, 16, 17, 4079, 4080, 4081, 4096, 70000)]
     lines = thr + work
